@@ -28,7 +28,9 @@ def parse_httpdate(date):
     date = parsedate(date)
     if date is None:
         return None
-    if date[0] < 1970:
+    if date[0] < 100:
+        # two-digit year that parsedate left as it is; four-digit years before 1970 are
+        # valid dates (long ago), not dates of this century
         date = (date[0] + 2000,) + date[1:]
     return calendar.timegm(date)
 
